@@ -256,7 +256,9 @@ def judge_resp(sim, ev, rec):
                 # could not open or ignored is not part of the identity)
                 read_vals = set(v for vals in (out.get("ava") or {}).values() for v in vals if isinstance(v, str))
                 used = any((v or "").strip() in read_vals for x in d_["attrs"] for v in x["values"] if v and len(v) >= 8)
-                if d_["signed"] and d_["id"] and used:
+                # (for a refused delivery every signed advice assertion is looked at: a bad one is a good
+                # reason for the refusal)
+                if d_["signed"] and d_["id"] and (used or not accepted):
                     sig_elems.append(("advice-assertion", ASSERT_NODE, d_["id"], d_["issuer"] or m["issuer"], True))
                     sim.count("probe.signed-advice-assertion")
     except ET.ParseError:
@@ -321,6 +323,13 @@ def judge_resp(sim, ev, rec):
         gen_dec = [t for t in rec["tool"] if t.get("op") == "decrypt" and t.get("genuine_ok")]
         if not gen_dec:
             hits.append(("C20", "no-genuine-decrypt", "", True))
+        # one layer of encryption, nothing nested: the library's last word on the ciphertext must not be a tool
+        # failure (an identity must not survive from an earlier pass whose result it went on to re-examine)
+        decs = [t for t in rec["tool"] if t.get("op") == "decrypt"]
+        if len(stages) == 2 and len(m["encrypted"]) == 1 and not m["assertions"] and decs and decs[-1].get("fault") \
+                and not decs[-1].get("genuine_ok"):
+            hits.append(("C20", "identity-after-final-decrypt-failure", "tool=%s" % [
+                (t.get("op"), t.get("fault"), t.get("genuine_ok")) for t in rec["tool"]], True))
     if m["encrypted"] and not eff:
         hits.append(("C17", "undecryptable", "undec=%d" % undec, True))
 
@@ -645,10 +654,16 @@ def judge_answer(sim, ev, rec):
             leaked_names = [n for n in names if any(('FriendlyName="%s"' % n) in d for d in decodings)]
             if leaked_names:
                 add(sim, rec, "C17", "attribute-name-leak", "names in clear: %r" % leaked_names[:3])
-        # addressed to one of the SP's encryption certificates as the IdP knows them
-        for t in rec.get("tool") or []:
-            if t.get("op") == "encrypt" and t.get("healthy_ok") and t.get("key") not in (enc_labels or []):
+        # addressed to one of the SP's encryption certificates as the IdP knows them (or, for the PEFIM advice,
+        # to the certificate that came with the request)
+        adv_label = ("k%d" % p["enc_cert_advice"]) if p.get("enc_cert_advice") is not None and p.get("pefim") else None
+        enc_runs = [t for t in (rec.get("tool") or []) if t.get("op") == "encrypt" and t.get("healthy_ok")]
+        for t in enc_runs:
+            if t.get("key") not in (enc_labels or []) + ([adv_label] if adv_label else []):
                 add(sim, rec, "C17", "encrypted-for-foreign-key", "key=%s sp-enc-certs=%s" % (t.get("key"), enc_labels))
+        if adv_label and enc_runs and not enc_faulted and adv_label not in [t.get("key") for t in enc_runs]:
+            add(sim, rec, "C17", "advice-not-encrypted-for-requested-certificate",
+                "requested=%s used=%s" % (adv_label, [t.get("key") for t in enc_runs]))
 
 
 # ------------------------------------------------------------------------------------- requests
@@ -685,6 +700,10 @@ def judge_req(sim, ev, rec):
     F.update({"dest": m["destination"], "own": own, "signed": m["signed"], "issuer": m["issuer"]})
     if m["destination"] and m["destination"] not in own:
         hits.append(("foreign-destination", "dest=%s own=%s" % (m["destination"], own)))
+    # schema: ID, Version and IssueInstant are required attributes of every request, and an xs:ID is not empty
+    for attr_, val_ in (("ID", m["id"]), ("IssueInstant", m["issue_instant"]), ("Version", m["version"])):
+        if not (val_ or "").strip():
+            hits.append(("schema-required-attribute-missing", attr_))
     ii = wire.ts_epoch(m["issue_instant"])
     fresh_comfortable = False
     if ii is not None:
